@@ -54,6 +54,21 @@ CHECKS = {
               'balances must agree.'),
         note='sessions failing the precondition are counted, never judged',
         ref='DESIGN.md section 3 C12'),
+    'C03': dict(
+        technique='online shadow-model monitor (exact rational average-cost margin account) over generated operation histories on the real objects',
+        text=('Legal submit/cancel/execute/price-move histories are applied to the real Order/Position/FuturesExchange objects of a '
+              'prepared store and to the reference account; wallet, position, entry, unrealised PnL and available margin are '
+              'compared after every operation and every accept/InsufficientMargin decision against the model threshold '
+              '(strictly on exactly representable dyadic histories).'),
+        note='trusts vf/models.AccountFutures; a stub strategy cancels resting orders when a position closes, as the statement prescribes',
+        ref='DESIGN.md section 3 C03'),
+    'C04': dict(
+        technique='online shadow-model monitor (cash account) over generated operation histories on the real objects',
+        text=('Buy/sell MARKET/LIMIT/STOP histories with decimal quantities, cancellations and cancel-then-bigger-sell patterns on '
+              'the real SpotExchange/Position; balances, position size, non-negativity and every accept/InsufficientBalance '
+              'decision are compared with the reference cash account after every operation.'),
+        note='trusts vf/models.AccountSpot; resting sells are reduce-only as the strategy layer submits them',
+        ref='DESIGN.md section 3 C04'),
 }
 
 NOT_YET = 'check under construction in this round (see DESIGN.md section 3); not claimed until it runs clean on the unchanged tree'
